@@ -311,8 +311,10 @@ class Paragraph(BlockToken):
 
     def __new__(cls, lines):
         if not isinstance(lines, list):
-            # setext heading token, return directly
-            return lines
+            # setext heading detected by read(): its lines come wrapped in a tuple.
+            # The heading is built here, like every other token, so that its inline
+            # content is parsed only after all link reference definitions are known.
+            return SetextHeading(lines[0])
         return super().__new__(cls)
 
     def __init__(self, lines):
@@ -337,7 +339,7 @@ class Paragraph(BlockToken):
             # check if the paragraph being parsed is in fact a Setext heading
             if cls.parse_setext and cls.is_setext_heading(next_line):
                 line_buffer.append(next(lines))
-                return SetextHeading(line_buffer)
+                return (line_buffer,)
 
             # finish the check for paragraph-breaking tokens with the special case: ThematicBreak
             if ThematicBreak.check_interrupts_paragraph(lines):
